@@ -304,6 +304,9 @@ def run(ctx):
     lines, impl, metas = [], [], []
     for n in range(60 if ctx.thorough else 12):
         content = bytes([0x30 + rr.randrange(8)]) + bytes(rr.randrange(0x20, 0x7f) for _ in range(rr.randrange(1, 12))) + b"\r\x03"
+        if n % 3 == 2:
+            # an intermediate frame (ETB) whose text contains an ETX character and lower-case hexadecimal letters
+            content = content[:-2] + b"\x03" + bytes(rr.choice(b"abcdef") for _ in range(2)) + b"\x17"
         if n % 2 == 0:
             # sums whose first / second hexadecimal digit is 0 (leading zero, round numbers)
             want = rr.choice([rr.randrange(16), rr.randrange(16) * 16])
@@ -327,6 +330,16 @@ def run(ctx):
             expect = "accepted" if (len(f) == 2 and f.upper() == ref) else "rejected"
             s.case({"content": hexb(content), "field": hexb(f)}, nontrivial=(f != ref))
             s.count(expect)
+            if len(f) == 2:
+                # the receiver's own test of the same field
+                try:
+                    v = "accepted" if utils.validate_checksum(msg) else "rejected"
+                except Exception as e:  # noqa
+                    v = "raises " + type(e).__name__
+                if v != expect:
+                    s.fail({"content": hexb(content), "checksum_field": hexb(f), "function_returns": ref.decode()},
+                           "validate_checksum: a frame whose checksum field is %r is %s although the checksum of its content is %r"
+                           % (f, v, ref.decode()), "field-as-used/validate-" + v.split(" ")[0])
             if got != expect:
                 s.fail({"content": hexb(content), "checksum_field": hexb(f), "function_returns": ref.decode()},
                        "a frame whose checksum field is %r is %s although the checksum of its content is %r"
